@@ -46,7 +46,8 @@ def pool():
             '12', '-3', '2.5', '0.25', '007', 'abc', '', '1e3x', '9007199254740993', '-123456789012345678901234567890',
             ERR('#DIV/0!'), ERR('#N/A'),
             dt(1900, 1, 1), dt(1900, 3, 1), dt(2020, 1, 1), dt(2020, 1, 1, 12), dt(2020, 2, 29, 6), dt(9999, 12, 31)]
-    arrs = [[1, 2, 3], [9], [], [1, 2], [[1, 2], [3, 4]], [1, 'a', None], [0.5, True, '2'], [dt(2020, 1, 1), 5], [1, [2, 3]]]
+    arrs = [[1, 2, 3], [9], [], [1, 2], [[1, 2], [3, 4]], [1, 'a', None], [0.5, True, '2'], [dt(2020, 1, 1), 5], [1, [2, 3]],
+            [[10, 20]], [[10, 20, 30]], [[1, 2, 3, 4]], [[7]], [[]]]      # one-row blocks (what a single-row range delivers)
     return scal, arrs
 
 
